@@ -1,49 +1,26 @@
 (** run_script's continuation folding. With the proposed repair
-    (fold_lines_fixed: escaped backslashes are put out of the way before the
-    test and the two replace_all passes) a text in which every newline follows
-    an EVEN number of backslashes is left unchanged, for all texts. *)
+    (fold_lines_fixed: one pass that joins only at a newline preceded by an odd
+    number of backslashes) a text in which every newline follows an EVEN number
+    of backslashes is left unchanged, for all texts. *)
 From Cicada Require Import Base.Chars Model.Rerender.
-From Coq Require Import Lia.
 Local Open Scope N_scope.
 
-Lemma hide_cons_other (c : char) (r : str) : (c =? c_bs) = false -> hide_pairs (c :: r) = c :: hide_pairs r.
-Proof. intros H. destruct r as [|d r']; [reflexivity|]. cbn [hide_pairs]. now rewrite H. Qed.
-
-Lemma contains_cons_other (c : char) (s : str) : (c =? c_bs) = false -> contains_bsnl (c :: s) = contains_bsnl s.
-Proof. intros H. destruct s as [|d r]; [reflexivity|]. cbn [contains_bsnl]. now rewrite H. Qed.
-
-Lemma contains_bs_cons (d : char) (s : str) : (d =? c_nl) = false ->
-  contains_bsnl ((c_bs : char) :: d :: s) = contains_bsnl (d :: s).
-Proof. intros H. cbn [contains_bsnl]. rewrite H, andb_false_r. reflexivity. Qed.
-
-Lemma no_cont_hidden n : forall t, (length t <= n)%nat -> nc false t = true ->
-  contains_bsnl (hide_pairs t) = false.
+Lemma fold3_id s : forall o odd sep, nc odd s = true -> fold3 o odd false sep s = rev o ++ s.
 Proof.
-  induction n as [|n IH]; intros t Hl Hn.
-  - destruct t; [reflexivity|cbn in Hl; lia].
-  - destruct t as [|c t]; [reflexivity|].
-    destruct (c =? c_bs) eqn:Ec.
-    + apply N.eqb_eq in Ec. subst c. destruct t as [|d t]; [reflexivity|].
-      cbn [nc] in Hn. change (c_bs =? c_bs) with true in Hn. cbn [negb] in Hn.
-      destruct (d =? c_bs) eqn:Ed.
-      * apply N.eqb_eq in Ed. subst d. cbn [nc] in Hn. change (c_bs =? c_bs) with true in Hn.
-        cbn [negb] in Hn. cbn [hide_pairs]. change ((c_bs =? c_bs) && (c_bs =? c_bs)) with true. cbn iota.
-        rewrite contains_cons_other by reflexivity. rewrite contains_cons_other by reflexivity.
-        apply IH; [cbn in Hl; lia|exact Hn].
-      * cbn [nc] in Hn; try rewrite Ed in Hn.
-        destruct (d =? c_nl) eqn:En; [cbn in Hn; discriminate|].
-        change (hide_pairs (c_bs :: d :: t)) with
-          (if (c_bs =? c_bs) && (d =? c_bs) then 0 :: 0 :: hide_pairs t else c_bs :: hide_pairs (d :: t)).
-        change (c_bs =? c_bs) with true. rewrite Ed. cbn [andb].
-        rewrite (hide_cons_other d t Ed), (contains_bs_cons d _ En).
-        rewrite <- (hide_cons_other d t Ed).
-        apply IH; [cbn in Hl |- *; lia|]. cbn [nc]. now rewrite Ed, En.
-    + rewrite (hide_cons_other c t Ec), (contains_cons_other c _ Ec).
-      apply IH; [cbn in Hl; lia|]. cbn [nc] in Hn. rewrite Ec in Hn.
-      destruct (c =? c_nl); [now apply andb_true_iff in Hn as [_ Hn]|exact Hn].
+  induction s as [|c s IH]; intros o odd sep H.
+  - cbn [fold3 andb]. now rewrite app_nil_r.
+  - cbn [fold3 andb]. cbn [nc] in H.
+    destruct (c =? c_bs) eqn:Eb.
+    + apply N.eqb_eq in Eb. subst c. change (c_bs =? c_nl) with false. cbn [andb].
+      rewrite (IH _ _ sep H). cbn [rev]. now rewrite <- app_assoc.
+    + destruct (c =? c_nl) eqn:En.
+      * apply andb_true_iff in H as [Ho H]. destruct odd; [discriminate|]. cbn [andb].
+        rewrite (IH _ _ sep H). cbn [rev]. now rewrite <- app_assoc.
+      * cbn [andb]. rewrite (IH _ _ sep H). cbn [rev]. now rewrite <- app_assoc.
 Qed.
 
 Theorem fold_fixed_id t : no_cont t = true -> fold_lines_fixed t = t.
 Proof.
-  intros H. unfold fold_lines_fixed. now rewrite (no_cont_hidden (length t) t (le_n _) H).
+  intros H. unfold fold_lines_fixed. destruct (contains_bsnl t); [|reflexivity].
+  exact (fold3_id t [] false false H).
 Qed.
